@@ -25,7 +25,7 @@ updates the rank dict in place returns the new dict; recursion is given explicit
 Expressions: names, integer constants, True/False, + - * // % unary -, `/ 2.0` (-> H), comparisons (chains), and/or/not,
 conditional expressions, subscripts and the slices [:e] [s:], len abs min max (two numbers; a list with key=), sorted(key=),
 map, frozenset (only under len), zip, enumerate, bisect.bisect_right, itemgetter, math.isinf (constant False: the model's
-numbers are exact, float overflow is outside the model), tuples, list displays, `[e for _ in range(n)]` with e constant,
+numbers are exact, float overflow is outside the model), tuples, list displays, `[e for _ in range(n)]` with e constant, `[e(x) for x in l]`,
 defaultdict(list), d[k].append(x), d.keys(), d.values(), dict.fromkeys, l.sort(reverse=True), l[i].extend(xs).
 IndexError / ValueError are not modelled as exceptions: like in the hand model, a subscript out of range yields a default
 value (0, the empty tuple / list); the equivalence lemmas are stated where that cannot happen or does not matter.
@@ -387,7 +387,16 @@ class FnTr(object):
             it = g.iter
             if not (isinstance(it, ast.Call) and isinstance(it.func, ast.Name) and it.func.id == "range" and "range" not in self.env
                     and len(it.args) == 1 and not it.keywords):
-                refuse(n, "comprehension over something else than range(n)")
+                # [e(x) for x in l]: map over a list (the comprehension's variable is local to it)
+                nm = g.target.id
+                if nm in BUILTINS or nm in SIG or nm in EXPECTED:
+                    refuse(n, "comprehension variable %s has a fixed meaning" % nm)
+                src, ety = self.seq(it)
+                saved = dict(self.env)
+                self.env[nm] = ety
+                e, te = self.expr(n.elt)
+                self.env = saved
+                return "(map (fun %s => %s) %s)" % (cn(nm), e, src), L(te)
             if any(isinstance(t, ast.Name) and t.id == g.target.id for t in ast.walk(n.elt)):
                 refuse(n, "comprehension element depends on the loop variable")
             e, te = self.expr(n.elt)
